@@ -93,6 +93,8 @@ type sessIn struct {
 	// the receiver holds back its answer to the init PUT of this representation; DELETE is sent
 	// meanwhile, then the receiver answers
 	HoldInit string `json:"delete_during_init_of,omitempty"`
+	// vodroot of the livesim2 instance (default: the bundled assets); such a session runs alone
+	VodRoot string `json:"vodroot,omitempty"`
 	// sessions of one group run in the same process and PUT to the same receiver host (one server,
 	// told apart by their destination name)
 	Group string `json:"group,omitempty"`
@@ -343,7 +345,11 @@ func childMain() {
 		fmt.Fprintln(os.Stderr, "child: bad input:", err)
 		os.Exit(4)
 	}
-	ls, err := lib.NewLivesim(lib.TestVodRoot, nil)
+	vodRoot := lib.TestVodRoot
+	if len(batch) > 0 && batch[0].VodRoot != "" {
+		vodRoot = batch[0].VodRoot
+	}
+	ls, err := lib.NewLivesim(vodRoot, nil)
 	if err != nil {
 		fmt.Fprintln(os.Stderr, "child: livesim:", err)
 		os.Exit(4)
